@@ -25,6 +25,7 @@ class Describer:
         self.terms = []         # representative z3 values
         self.types = []         # indices used as types
         self.values = []        # indices used as values
+        self.validators = []    # (validator term, constraint term) of a Rule's __validators__ entries
 
     def ev(self, t):
         return self.m.eval(t, model_completion=True)
@@ -70,6 +71,18 @@ class Describer:
                 return {"none": True}
             if as_type:
                 return {"t": self.key(v.t, "t")}
+            # a boxed scalar (the model makes this object a str / int / bool value): hand out the literal
+            try:
+                tyv = self.ev(sym.ty(v.t))
+                sv = self.ev(sym.unbox_str(v.t))
+                if z3.is_true(self.ev(sym.box_str(sv) == v.t)) and z3.is_true(self.ev(tyv == self.w.classes.of_py(str).t)):
+                    return {"lit": z3_string(sv)}
+                iv = self.ev(sym.unbox_int(v.t))
+                if z3.is_true(self.ev(sym.box_int(iv) == v.t)) and z3.is_int_value(iv) and \
+                        z3.is_true(self.ev(tyv == self.w.classes.of_py(int).t)):
+                    return {"lit": iv.as_long()}
+            except Exception:
+                pass
             return {"v": self.key(v.t, "v")}
         if isinstance(v, (VSeq,)):
             n = self.ev(v.n).as_long()
@@ -79,6 +92,12 @@ class Describer:
             items = []
             for i in range(n):
                 e = z3.Select(v.arr, i)
+                if v.elem is not None and getattr(v.elem, "name", "") == "validator-entry":
+                    f, c = z3.Select(sym.seq_arr(e), 2), z3.Select(sym.seq_arr(e), 1)
+                    self.validators.append((self.ev(f), self.ev(c)))
+                    key = z3_string(self.ev(sym.unbox_str(z3.Select(sym.seq_arr(e), 0))))
+                    items.append({"validator": len(self.validators) - 1, "key": key, "constraint": {"v": self.key(c, "v")}})
+                    continue
                 if is_types or as_type:
                     items.append({"t": self.key(e, "t")})
                 elif v.elem is not None:
@@ -138,6 +157,22 @@ class Describer:
                             leaf.append([t, x, nec, ndl, a, c])
             if len(self.values) == len(vals):
                 break
+        vrows = []
+        if self.validators:
+            from contracts.parsing import vacc, vres
+            for _ in range(3):
+                vals = list(self.values)
+                for j, (f, c) in enumerate(self.validators):
+                    for x in vals:
+                        a = z3.is_true(self.ev(vacc(f, self.terms[x], c)))
+                        r = self.key(vres(f, self.terms[x], c), "v")
+                        vrows.append([j, x, a, r])
+                if len(self.values) == len(vals):
+                    break
+            # the leaf table must cover the values the validators may produce
+            for x in self.values:
+                tx = self.ev(sym.ty(self.terms[x]))
+                ty[x] = self.key(tx)
         # de-duplicate rows
         seen, rows = set(), []
         for r in leaf:
@@ -151,7 +186,13 @@ class Describer:
                 if i < j and (z3.is_true(self.ev(sym.py_eq(self.terms[i], self.terms[j]))) or
                               z3.is_true(self.ev(sym.py_eq(self.terms[j], self.terms[i])))):
                     eq.append([i, j])
-        return {"leaf": rows, "ty": {str(k): v for k, v in ty.items()}, "types": self.types, "values": self.values, "eq": eq}
+        vseen, vtab = set(), []
+        for r in vrows:
+            if (r[0], r[1]) not in vseen:
+                vseen.add((r[0], r[1]))
+                vtab.append(r)
+        return {"leaf": rows, "ty": {str(k): v for k, v in ty.items()}, "types": self.types, "values": self.values, "eq": eq,
+                "validators": vtab}
 
 
 def describe(world, model, params, extra=None):
